@@ -53,6 +53,10 @@ def _job(task, msgs=('started', 'succeeded'), sn=1, ok=True):
 _L = {'op': 'loop'}
 
 
+def _CMD(name, **args):
+    return {'op': 'cmd', 'name': name, 'args': args}
+
+
 def _TRIG(*tasks):
     return {'op': 'cmd', 'name': 'force_trigger_tasks', 'args': {'tasks': list(tasks), 'flow': [], 'flow_wait': False}}
 
@@ -87,6 +91,12 @@ _CORPUS = {
         _flow(_q('default', 1) + _q('q', 1, ['a']), graph='a & c & d', fcp=2, runahead=2),
         [_L] + _job('1/a') + _job('1/c', _FAIL) + [_L, _L] + _job('1/d') + _job('2/a') + [_L, _L] +
         _job('2/c') + [_L, _L] + _job('2/d') + [_L, _L, _L]),
+    # the head of a queue of limit 2 is held: it is skipped and takes no slot - the two tasks behind it are both
+    # released by the next main loop
+    'held-head-takes-no-slot': (
+        _flow(_q('q', 2, ['a', 'b', 'c']), graph='a & b & c', fcp=1, runahead=1),
+        [_CMD('pause'), _L, _CMD('hold', tasks=['1/a']), _CMD('resume'), _L] + _job('1/b') + _job('1/c') +
+        [_L, _CMD('release', tasks=['1/a']), _L, _L] + _job('1/a') + [_L, _L, _L]),
     # a task waits for a non-zero retry delay while another task has finished incomplete and nothing is active: NOT a
     # stall (it runs again by itself); once the clock has moved on (tick) the retry is submitted
     'retry-delay-is-not-a-stall': (
@@ -155,8 +165,8 @@ class C03Q(SchedProp):
             'over, key rwait, predicted by the model), cmdqtr (the same with manual triggers of pooled tasks - `cylc '
             'trigger` of members of full / free queues, of queued tasks, of tasks that failed - holds and pause, and the '
             'prepared jobs handed over by the REAL submit_livelike_task_jobs: a triggered task whose job fails with a '
-            'retry lined up must come back through its queue); seven hand-written histories run first (a failed / '
-            'submit-failed / incomplete-succeeded member must free its slot; a pending retry delay is not a stall; the '
+            'retry lined up must come back through its queue); eight hand-written histories run first (a failed / '
+            'submit-failed / incomplete-succeeded member must free its slot; a held queue head takes no slot; a pending retry delay is not a stall; the '
             'retry of a triggered task is submitted); every automatic shutdown, every rise of the stall flag and every '
             'main loop of every run is judged; non-trivial = a limited queue held back a ready task over a main loop, or '
             'a task waited for a retry delay over a main loop, or a triggered task was retried; classes = (kind, ending, '
